@@ -1,0 +1,12 @@
+//go:build verif
+
+package protocol
+
+// Exports of unexported codec helpers for the verification harness (/verif).
+// Compiled only with -tags verif; adds no behaviour.
+
+// VerifMarshalString exposes marshalString.
+func VerifMarshalString(s string) ([]byte, bool) { return marshalString(s) }
+
+// VerifUnmarshalStringLength exposes unmarshalStringLength.
+func VerifUnmarshalStringLength(data []byte) (int, uint8, error) { return unmarshalStringLength(data) }
